@@ -72,7 +72,7 @@ class RealDom:
     def var(self, name):
         return z3.Real(name)
 
-    def _spec(self, op, a, b):
+    def _spec(self, op, a, b, st=None):
         # at least one special (inf/nan) operand
         def tof(x):
             if isinstance(x, float):
@@ -86,7 +86,12 @@ class RealDom:
         if fb is not None and fb != fb:
             return math.nan
         if fa is None or fb is None:
-            raise Unsupported('REAL: symbolic op with inf operand')
+            # symbolic (finite) operand combined with +-inf: the result is non-finite; which one
+            # (inf or nan) depends on the sign/zero-ness of the symbolic operand.  The REAL domain
+            # only tracks "non-finite" here.
+            if st is not None:
+                st.event('nonfinite-approx')
+            return math.nan
         try:
             if op == 'fadd':
                 return _mk(fa + fb)
@@ -105,7 +110,7 @@ class RealDom:
 
     def bin(self, ex, st, op, a, b):
         if isinstance(a, float) or isinstance(b, float):
-            return self._spec(op, a, b)
+            return self._spec(op, a, b, st)
         ca = isinstance(a, (Fraction, int))
         cb = isinstance(b, (Fraction, int))
         if ca and cb:
